@@ -48,6 +48,22 @@ What this file does on every run
   - `journal.ctl` with a `fail` event (`exit_fault_stream`): a restore step that raises; `generator_stream`;
   - `journal.kernel` (`kernel_stream`): C01-alphabet histories (kernel_ops.Gen) inside 0-3 journals: the model's
     instantiated call tree of every call vs the observed one, entries, outcomes, kernel snapshot with vs without journal.
+* round 4:
+  - `journal.flat` (`flat_stream`): flat histories (`runFlat`): raw __enter__ / __exit__ calls (with (None, None, None) or
+    with the triple of a live exception), public-API operations in between, in any order (all words of length <= 4-5
+    over a 5-letter alphabet, random properly nested and free words over 3 journals): control state after every item,
+    WellBracketed (model) vs the harness' stack discipline, outcomes, entries; oracle: a properly nested word restores
+    classes / current journal / active flags (C20_restore_flat), IR and results as without journals, entries = calls
+    completed while entered;
+  - captured callables (`capture` / `callcap` items of `journal.flat`): a callable taken from an instance or from the
+    class (method, constructor, property setter, container method) before / inside a journal and called inside /
+    after it: what was looked up (wrapper layers) and what calling it records, model vs code; oracle: a journal
+    receives nothing after it was left (`captured-inside/records-after-exit:*`, finding D471; a probe of the real
+    wrappers selects `callCaptured` or, once they check `journal._active`, `callCapturedGuarded`);
+  - `journal.kernel` now runs the EXTENDED C01 alphabet with its spellings (through an ir.Function, Node.append /
+    prepend, a Tape / Builder, graph attributes, every dict spelling of an attribute edit): the model's spelled call
+    tree `callTreeX` incl. what every instrumented call returns, the receiver of Graph.sort, values returned by the
+    public calls.  An op outside `K_INSTANTIATED` is reported as a broken correspondence that names it.
 * coverage floor: two deterministic histories call all 43 instrumented operations inside journals;
   the run fails (exit 2) if any slot was exercised fewer than FLOOR times.
 """
@@ -105,6 +121,19 @@ THEOREMS = [
     "IrVerif.Journal.C20_improper_nesting_not_restored",
     "IrVerif.Journal.C20_kernel_plain",
     "IrVerif.Journal.C20_transparent_kernel",
+    # round 4
+    "IrVerif.Journal.C20_restore_flat",
+    "IrVerif.Journal.C20_restore_flat_needs_fresh",
+    "IrVerif.Journal.C20_exit_restores_own_snapshot",
+    "IrVerif.Journal.C20_improper_nesting_general",
+    "IrVerif.Journal.C20_captured_before_not_recorded",
+    "IrVerif.Journal.C20_captured_inside_records_after_exit",
+    "IrVerif.Journal.C20_captured_inside_witness",
+    "IrVerif.Journal.C20_captured_inside_guarded",
+    "IrVerif.Journal.C20_guard_noop_when_active",
+    "IrVerif.Journal.C20_captured_after_exit_guarded",
+    "IrVerif.Journal.C20_transparent_kernel_spelled",
+    "IrVerif.Journal.C20_kernel_plain_spelled",
 ]
 # "entries keep no strong reference": since round 3 the model represents the entry as the dataclass is (eight
 # fields, `EntryFull`; object-valued fields would be `FVal.inst`) and every wrapper's details expression as a
@@ -119,10 +148,15 @@ ASSUMPTIONS = [
     "was found), with one-shot iterables for every operation that takes an iterable; not proved",
     "ProcNone: instrumented constructors and property setters return None (checked on every traced call)",
     "no hooks registered on the journal (Journal.add_hook); a hook runs user code inside record()",
-    "operations are invoked through the classes (attribute lookup at call time).  A bound method kept by user code "
-    "across the boundary of a `with journal:` block bypasses the class table: captured before and called inside it is "
-    "not recorded; captured inside and called after exit still records into the journal that was left.  Generated "
-    "(stream bound-method) and reported, checked only for transparency / restore / no strong reference",
+    "the run theorems (C20_transparent / C20_entries) look every operation up on the class at call time.  A callable kept "
+    "by user code across the boundary of a `with journal:` block is modelled separately (Captured / capture / callCaptured): "
+    "taken before and called inside it is not recorded (C20_captured_before_not_recorded: inherent in patching classes, "
+    "reported in the distribution, not a failure); taken inside and called after exit it recorded into the journal that "
+    "was left (C20_captured_inside_records_after_exit: finding D471, fixed in /repo by commit 1a1144b - the wrappers now "
+    "forward when journal._active is false: C20_captured_after_exit_guarded; the oracle `captured-inside/records-after-exit:*` "
+    "stays).  The run theorems are stated for the wrappers WITHOUT that check (runImpl); C20_guard_noop_when_active shows "
+    "the checked wrapper is the same function whenever its journals are active; that every wrapper reachable through the "
+    "class table of a properly nested history has an active journal is not proved (it is what the flat / block streams compare)",
     "after exit the patched properties are NEW property objects with the original fget/fset/fdel/doc (restore_ir_classes "
     "builds property(fget, fset)); `is`-identity of the property object itself is not restored and not claimed "
     "(nothing in onnx_ir depends on it); identity of plain methods is restored and checked",
@@ -134,11 +168,14 @@ ASSUMPTIONS = [
     "objects).  A restore step that raises (injected through the private _original_methods, or an asynchronous exception) "
     "leaves the remaining slots wrapped and the journal current/active; a second __exit__ completes the restore "
     "(C20_exit_fault / C20_exit_retry, model compared with the code under fault injection; observation D470, outside the property)",
-    "kernel instantiation (C20_transparent_kernel): the kernel updates its state atomically per public call, placed after "
-    "the call's instrumented sub-calls returned; completed calls return None (the kernel has outcomes only); the receiver "
-    "of Graph.sort is not carried by the kernel op (masked in the comparison); calls spelled through Function / Node.append "
-    "and attribute edits are not in the kernel stream (they are in the public-API stream); Graph.remove / Graph.sort "
-    "sub-call order is address-dependent and compared as multisets (also the entries of histories containing them)",
+    "kernel instantiation (C20_transparent_kernel / _spelled): the kernel updates its state atomically per public call, placed "
+    "after the call's instrumented sub-calls returned; the spelling of a call (through an ir.Function created on first use, "
+    "Node.append / prepend, Attr objects built for it, `|=`) and the numbering of Function / Attr objects are supplied by the "
+    "harness (the kernel op does not carry them); a public call returns what its instrumented root call handed back when it "
+    "IS that call (isDirect), None otherwise (e.g. initializers.pop(key) returns the value without an instrumented call: "
+    "not modelled); a non-Attr attribute argument, Value(producer, index=...) and Node(outputs=[initializer]) (C01 finding "
+    "D12b) are not in the kernel stream; Graph.remove / Graph.sort sub-call order is address-dependent and compared as "
+    "multisets (also the entries of histories containing them)",
     "generators: a journal held open by a generator is closed by GeneratorExit / gc (an exit by exception: C20_restore); "
     "closing it while a journal entered later is still open is an exit out of order (C20_improper_nesting_not_restored: "
     "classes stay wrapped) - outside 'properly nested', generated and compared with the model, reported in the distribution",
@@ -2111,7 +2148,12 @@ def proper_prefix(word: list) -> bool:
     return True
 
 
-def flat_stream(ctx, cases: list, stream: str, guarded: bool) -> None:
+def flat_stream(ctx, cases: list, stream: str, guarded: bool, chunk: int = 100) -> None:
+    for at in range(0, len(cases), chunk):
+        _flat_stream(ctx, cases[at : at + chunk], stream, guarded)
+
+
+def _flat_stream(ctx, cases: list, stream: str, guarded: bool) -> None:
     """Flat histories: the model's `runFlat` / `capture` / `callCaptured` vs the real code (control state after every
     item, what a captured callable is, outcomes, every journal's entries), and the property on the real objects:
     a properly nested word restores classes / current journal / active flags; IR and results as without journals;
@@ -2207,8 +2249,16 @@ def flat_stream(ctx, cases: list, stream: str, guarded: bool) -> None:
         last = ans["states"][-1] if ans["states"] else None
         if impl["proper"] and last is not None and (any(x["layers"] or x["base"] != i for i, x in enumerate(last["table"])) or last["current"] is not None or any(last["active"])):
             ctx.disagree("model: a well-bracketed word does not restore (contradicts C20_restore_flat)", case, last, None)
+    # one collection for the whole batch (gc.collect() costs ~50 ms with the IR modules loaded)
+    gc.collect()
     for case, req, impl, journals, wrs, n_entries in pend:
-        gc_check(ctx, case, journals, wrs, n_entries, stream)
+        alive = [type(w()).__name__ for w in wrs if w() is not None]
+        stale = sum(1 for j in journals for e in j.entries if e.ref is not None and e.ref() is not None)
+        if sum(len(j.entries) for j in journals) != n_entries:
+            ctx.fail(f"{stream}/records-after-exit", "a journal kept receiving entries after it was left", {"case": case})
+        if alive or stale:
+            ctx.fail(f"{stream}/strong-ref", "IR objects stay alive while only the journal entries are kept",
+                     {"case": case, "alive": alive[:10], "entries_with_live_ref": stale})
 
 
 FLAT_OPS = [
@@ -2291,6 +2341,15 @@ def flat_random(rng, n: int) -> list:
                 evs.append({"t": "exit", "j": st.pop(), "exc": rng.random() < 0.3})
         cases.append({"nj": 3, "evs": evs})
     return cases
+
+
+def _flat_exh_shard(args):
+    cases, guarded = args
+    part = Part()
+    R = Real.get()
+    load_slot_table(R)
+    flat_stream(part, cases, "flat-exhaustive", guarded)
+    return part
 
 
 def _flat_shard(args):
@@ -2774,6 +2833,8 @@ def generator_stream(ctx) -> None:
                 g.throw(UserBoom("thrown into the generator"))
             except UserBoom:
                 pass
+            except StopIteration:  # the `with journal:` inside the generator swallowed the exception
+                ctx.fail("generator:throw/exception-swallowed", "an exception thrown into a generator holding a journal open was swallowed by Journal.__exit__", {"how": how})
         else:
             del g
             gc.collect()
@@ -3041,6 +3102,7 @@ def kernel_stream(ctx, cases: list, stream: str = "kernel") -> None:
     R = Real.get()
     reqs, reals = [], []
     p_mops_of: dict = {}
+    reported: set = set()  # op names already reported as not instantiated (once per call of this function)
     for case in cases:
         ops = case["ops"]
         if R.pristine_problems():
@@ -3069,6 +3131,9 @@ def kernel_stream(ctx, cases: list, stream: str = "kernel") -> None:
         unknown = sorted({m["op"] for m in p_mops_of[id(case)] if m["op"] not in K_INSTANTIATED})
         if unknown:
             for name in unknown:
+                if name in reported:
+                    continue
+                reported.add(name)
                 ctx.disagree(f"kernel alphabet grew: operation '{name}' is not instantiated in C20's call trees "
                              "(lean/IrVerif/Model/JournalKernel.lean opTrees / convTrees; harness/c20.py K_INSTANTIATED)",
                              f"kernel-op:{name}", None, name)
@@ -3090,8 +3155,9 @@ def kernel_stream(ctx, cases: list, stream: str = "kernel") -> None:
             continue
         m_trees = [[_k_model_tree(t) for t in ts] for ts in ans["trees"]]
         for i, ts in enumerate(m_trees):
-            if any(t[0] == K_NOT_INSTANTIATED_SLOT for t in ts):
+            if any(t[0] == K_NOT_INSTANTIATED_SLOT for t in ts) and p_mops_of[id(case)][i]["op"] not in reported:
                 name = p_mops_of[id(case)][i]["op"]
+                reported.add(name)
                 ctx.disagree(f"kernel alphabet grew: operation '{name}' is mapped to `notInstantiated` in Model/JournalKernel.lean",
                              f"kernel-op:{name}", None, name)
         for i, (a, b) in enumerate(zip(m_trees, p_trees)):
@@ -3229,7 +3295,9 @@ def run(ctx: Ctx) -> None:
     guarded = not stale_wrapper_records()
     ctx.count(f"probe:stale-wrapper-records-after-exit={not guarded}")
     fl = ctx.pick(4, 5)
-    flat_stream(ctx, flat_exhaustive(fl), "flat-exhaustive", guarded)
+    words = flat_exhaustive(fl)
+    for p in pmap(_flat_exh_shard, [(words[i::16], guarded) for i in range(16)]):
+        ctx.merge(p)
     ctx.exhaustive_scopes.append(f"all flat words of length <= {fl} over {{enter 0, enter 1, exit 0, exit 1 with an exception propagating, an operation}}")
     flat_stream(ctx, flat_captured_cases(), "flat-captured", guarded)
     ctx.exhaustive_scopes.append("6 capturable callables (instance / class level: method, constructor, property setter, container method) x 5 capture/call placements")
